@@ -301,7 +301,12 @@ async fn run_failure_sub(kind: Kind, inflight: usize, timed: bool, fault: Fault,
 async fn run_failure_stalled(kind: Kind, inflight: usize, fault: SFault, resume: bool) -> (Bad, u64) {
     let mut bad = Bad::new();
     let ctx = format!("{} inflight={inflight} fault={fault:?} while a 20 KB request is stalled mid-write; afterwards the peer {}", kind.name(), if resume { "lets the stalled write through" } else { "never reads again" });
-    let Conn { cli, mut peer, .. } = clients::connect(kind).await;
+    let Conn { cli, mut peer, mut notifies } = clients::connect(kind).await;
+    // (WebSocketClient: the subscriber has already received one notification when the trouble starts)
+    if notifies.is_some() {
+        peer.send(&clients::notify_frame(0, 1)).await;
+        memstream::settle().await;
+    }
     let calls: Vec<_> = (0..inflight as u64).map(|i| tokio::spawn(cli.call(100 + i, None, 0))).collect();
     let reqs = peer.drain_requests().await.unwrap_or_default();
     let ids = clients::tag_ids(&reqs);
@@ -353,6 +358,24 @@ async fn run_failure_stalled(kind: Kind, inflight: usize, fault: SFault, resume:
     }
     if cli.pending() != 0 {
         bad.push((format!("C06:{class}:pending-residue"), format!("{ctx}: {} pending entries remain", cli.pending())));
+    }
+    if let Some(rx) = notifies.as_mut() {
+        // the notification delivered before the failure, then end-of-stream
+        let mut delivered = 0;
+        loop {
+            match tokio::time::timeout(clients::HOUR, rx.recv()).await {
+                Ok(None) => break,
+                Ok(Some(m)) if m.header.notify != 0 && delivered == 0 => delivered += 1,
+                Ok(Some(m)) => {
+                    bad.push((format!("C06:{class}:subscriber-got-frame"), format!("{ctx}: subscriber received an unexpected frame (id {})", m.header.id)));
+                    break;
+                }
+                Err(_) => {
+                    bad.push((format!("C06:{class}:subscriber-no-eof"), format!("{ctx}: the notification subscriber never saw end-of-stream ({delivered} notification(s) delivered before)")));
+                    break;
+                }
+            }
+        }
     }
     (bad, flags)
 }
